@@ -7,12 +7,15 @@
 EXTENDS Naturals, Sequences, Json, TLC, C19Inputs
 VARIABLES c, phase
 DocNames == DOMAIN Docs
+Kinds == {"sstr", "lstr", "bstr", "bstr2", "arr", "obj", "num", "tagged"}
 Scenarios == {"parse", "parse-assign", "copy", "copy-assign", "move-assign", "push_back", "insert_or_assign", "erase-insert", "merge", "dump", "dump-pretty",
               "cbor-roundtrip", "msgpack-roundtrip", "ubjson-roundtrip", "bson-roundtrip", "jsonpath", "jmespath", "pointer-add", "flatten", "compare",
               "stateful-parse", "stateful-copy", "stateful-assign", "stateful-insert"}
 Cases == { [scn |-> s, doc |-> d, text |-> Docs[d]] : s \in Scenarios, d \in DocNames } \cup
          { [scn |-> "patch", doc |-> p, text |-> Docs["small"], patch |-> Patches[p]] : p \in DOMAIN Patches } \cup
-         { [scn |-> "schema", doc |-> "small", text |-> Docs["small"]] }
+         { [scn |-> "schema", doc |-> "small", text |-> Docs["small"]] } \cup
+         \* copy / move assignment over an existing value, for every (existing kind, assigned kind) pair
+         { [scn |-> "assign-kind", doc |-> k1 \o "<-" \o k2, text |-> Docs["small"]] : k1 \in Kinds, k2 \in Kinds }
 Init == phase = 0 /\ c = [scn |-> "none"]
 Next == phase = 0 /\ phase' = 1 /\ c' \in Cases
 Emit == phase = 1 => PrintT(ToJson(c))
